@@ -178,6 +178,13 @@ func (setup *SetupServerController) handleKeyExchange(in util.Container) (util.C
 	out.SetByte(TagSequence, setup.step.Byte())
 
 	data := in.GetBytes(TagEncryptedData)
+	if len(data) < 16 {
+		// too short to contain an auth tag
+		log.Debug.Println("Encrypted data is too short")
+		setup.reset()
+		out.SetByte(TagErrCode, ErrCodeAuthenticationFailed.Byte()) // return error 2
+		return out, nil
+	}
 	message := data[:(len(data) - 16)]
 	var mac [16]byte
 	copy(mac[:], data[len(message):]) // 16 byte (MAC)
@@ -188,7 +195,7 @@ func (setup *SetupServerController) handleKeyExchange(in util.Container) (util.C
 
 	if err != nil {
 		setup.reset()
-		log.Info.Panic(err)
+		log.Info.Println(err)
 		out.SetByte(TagErrCode, ErrCodeUnknown.Byte()) // return error 1
 	} else {
 		decryptedBuf := bytes.NewBuffer(decrypted)
